@@ -26,10 +26,14 @@ Pool == { L("opt", "Listen", FALSE, "Listen", <<A("53", "int")>>),
           L("open", "Domain", FALSE, "Domain", <<A("mail", "str")>>),
           L("open", "Host", FALSE, "Host", <<A("h", "str")>>),
           L("close", "Domain", FALSE, "Domain", <<>>),
-          L("close", "Host", FALSE, "Host", <<>>) }
+          L("close", "Host", FALSE, "Host", <<>>),
+          \* unregistered sections (entered all the same under ignore-unknown), also a registered name in the wrong letter case
+          L("open", "Bogus", FALSE, "Bogus", <<A("x", "str")>>),
+          L("close", "Bogus", FALSE, "Bogus", <<>>),
+          L("open", "Domain", TRUE, "DOMAIN", <<A("mail", "str")>>),
+          L("close", "Domain", TRUE, "DOMAIN", <<>>) }
 \* flags: case-insensitive, ignore-unknown, default handler installed
 Init == lines = <<>> /\ flags \in {<<FALSE, FALSE, FALSE>>, <<TRUE, FALSE, FALSE>>, <<FALSE, TRUE, FALSE>>, <<FALSE, FALSE, TRUE>>, <<FALSE, TRUE, TRUE>>}
 Next == Len(lines) < MaxLines /\ \E x \in Pool : lines' = Append(lines, x) /\ UNCHANGED flags
-\* unregistered sections under ignore-unknown are excluded (undocumented behaviour)
 Emit == PrintT("DOC " \o ToJson([lines |-> lines, ci |-> flags[1], ignore |-> flags[2], defh |-> flags[3]]))
 ===========================================================================
